@@ -579,6 +579,15 @@ def c20(tier, rep):
         outs2 = e1_sharded(rep, exe, ["c20", "hist", 3, "core"], "purity (histories)")
         hist += sum(d["histories"] for d in outs2)
         rep.set("histories", hist)
+    outs4 = e1_sharded(rep, exe, ["c20", "hist", 3 if tier == "quick" else 4, "rel"], "purity (histories of related invocations)")
+    hist += sum(d["histories"] for d in outs4)
+    rep.set("related_units", outs4[0]["units"] if outs4 else 0)
+    outs3 = e1_sharded(rep, exe, ["c20", "typing"], "purity (typing sessions)")
+    rep.set("typing_histories", sum(d["histories"] for d in outs3))
+    rep.set("typing_prefixes", sum(d["prefixes"] for d in outs3))
+    rep.set("typing_prefixes_rejected", sum(d["prefixes_rejected"] for d in outs3))
+    hist += sum(d["histories"] for d in outs3)
+    rep.set("histories", hist)
     exeh = e1.build(hooks=True)
     pb = 1 if tier == "quick" else 2
     outs = e1_sharded(rep, exeh, ["c20", "conc", pb, "core"], "purity (concurrent expansions)")
@@ -602,7 +611,7 @@ def c20(tier, rep):
                         cands.append("%s:%d: %s" % (os.path.relpath(os.path.join(root, f), REPO), n, line.strip()[:120]))
     rep.set("hidden_state_candidates_in_sources", cands[:20])
     rep.assumptions.append("interleavings are explored at the granularity of the verif_hooks yield points (every name construction, step/chain generation, parser position); a race confined between two yield points is invisible")
-    rep.set("rule", "histories: EVERY sequence of expansions up to length %d over %s (input, config) units in one process, each output compared with the output of the same invocation as first expansion of a fresh process; interleavings: every ordered pair of core units expanded by two threads under the baton scheduler at the verif_hooks yield points, all schedules with <= %d preemptions, each thread's output compared with its sequential baseline" % (L, which, pb))
+    rep.set("rule", "typing sessions: for every corpus invocation E in every accepted config and EVERY proper top-level token prefix P of E (mostly rejected, half-typed invocations): histories [P, E, P] and the cumulative sessions P1..Pn,E / E,Pn..P1 in one process — E equals its fresh-process output, P's outcome is the same before and after; the corpus contains related invocations (the same text in expression and in type position, rejected prefixes of accepted invocations, diagnostics count as output); histories: every sequence up to length 3 (thorough 4) over the 16 related invocations, and EVERY sequence of expansions up to length %d over %s (input, config) units in one process, each output compared with the output of the same invocation as first expansion of a fresh process; interleavings: every ordered pair of core units expanded by two threads under the baton scheduler at the verif_hooks yield points, all schedules with <= %d preemptions, each thread's output compared with its sequential baseline" % (L, which, pb))
     rep.sample({"unit": "join!{ a |> f ?? g => h }", "baseline": "fresh child process"})
 
 
